@@ -1,6 +1,6 @@
 from __future__ import absolute_import
 import weakref
-from fontTools.ufoLib import UFOReader, UFOFileStructure, UFOFormatVersion
+from fontTools.ufoLib import UFOReader, UFOFileStructure, UFOFormatVersion, DEFAULT_GLYPHS_DIRNAME
 from defcon.objects.base import BaseObject
 from defcon.objects.layer import Layer
 
@@ -270,8 +270,11 @@ class LayerSet(BaseObject):
                     oldName = actionData["oldName"]
                     newName = actionData["newName"]
                     if oldName in writer.layerContents:
+                        # the layer keeps the default flag it has in the UFO at this point
+                        # of the history; a later "default" action changes it if needed
+                        wasDefault = writer.layerContents[oldName] == DEFAULT_GLYPHS_DIRNAME
                         writer.renameGlyphSet(oldName, newName)
-                        if newName == self.defaultLayer.name:
+                        if wasDefault:
                             writer.renameGlyphSet(newName, newName, defaultLayer=True)
                 elif action == "default":
                     newDefault = actionData["newDefault"]
